@@ -1191,7 +1191,9 @@ func (e *vestEnv) predicates(ctx sdk.Context, op *vestOp, pre *vestSnap, res opR
 					diff := new(big.Int).Sub(after, before)
 					diff.Abs(diff)
 					// a few base units plus the resolution of the SDK's 18-digit vesting scalar
-					tol := new(big.Int).Add(bi(3), new(big.Int).Quo(v0.OriginalVesting.AmountOf(dn).BigInt(), new(big.Int).Exp(bi(10), bi(18), nil)))
+					// |diff| <= 4 + (2*OV + OV' + U) * 0.5*10^-18 (three roundings to integers, the truncation of D, the compensation
+					// unit, and the 18-digit resolution of the three vesting scalars); checked with 7 + 3*floor(OV/10^18)
+					tol := new(big.Int).Add(bi(7), new(big.Int).Mul(bi(3), new(big.Int).Quo(v0.OriginalVesting.AmountOf(dn).BigInt(), new(big.Int).Exp(bi(10), bi(18), nil))))
 					rep.Eval("C07.later_time_agreement", diff.Cmp(tol) <= 0, c, st, fmt.Sprintf("%s at %d denom %s before %v after %v", op.term, tt.Unix(), dn, before, after))
 				}
 			}
